@@ -78,6 +78,13 @@ def prepare(case: Dict[str, Any], ctx: Any, res: core.CaseResult, need_causal: b
             res.discarded, res.discard_reason = True, "out of regime: " + why.split(":")[0][:60]
             return None
         models[tr["distributedInfo"]["rank"]] = m
+    # optional edits applied AFTER the regime check (C19: a child operator that ends 1us after its parent, the tolerated
+    # rounding artefact that makes the analysis clamp a -1 weight) - the models are rebuilt from the edited files
+    if case.get("post_edits"):
+        for fn, idx, dur in case["post_edits"]:
+            case["files"][fn]["traceEvents"][idx]["dur"] = dur
+        models = {tr["distributedInfo"]["rank"]: raw.model(tr["traceEvents"]) for tr in case["files"].values()}
+        case = dict(case, post_edits=None)
     d = ctx.scratch.new("cp")
     core.write_trace_files(d, case["files"])
     ok, ta = drv.guard(res, "TraceAnalysis(load)", drv.new_analysis, d)
@@ -87,7 +94,8 @@ def prepare(case: Dict[str, Any], ctx: Any, res: core.CaseResult, need_causal: b
     return ta, models, ld, d
 
 
-def analyse(case: Dict[str, Any], ctx: Any, res: core.CaseResult, max_windows: int = 3) -> Iterator[Analysed]:
+def analyse(case: Dict[str, Any], ctx: Any, res: core.CaseResult, max_windows: int = 3, cleanup: bool = True) -> Iterator[Analysed]:
+    """cleanup=False: the caller removes the work directory (ctx.scratch.drop(A.workdir)); the shard removes everything at its end anyway."""
     cplog.install(ctx)
     prep = prepare(case, ctx, res)
     if prep is None:
@@ -130,4 +138,5 @@ def analyse(case: Dict[str, Any], ctx: Any, res: core.CaseResult, max_windows: i
             res.counters["graphs"] += 1
             yield Analysed(ta, rank, view, annotation, inst, win, exp, g, ok, log, case["zero_weight"], d, tr, models[rank], ld.min_ts)
     finally:
-        ctx.scratch.drop(d)
+        if cleanup:
+            ctx.scratch.drop(d)
